@@ -20,6 +20,8 @@ CLAIMED = {
          'deadlock clause: lock-order relation acyclic (mode aware, one thread per device), no self re-acquisition, no blocking guard across awaits, no suspension between cache insert and re-lookup; livelock/termination not decided', 'C07'),
  'C17': ('error-value def-use discipline + restore/undo typestate in the fault model',
          'no dropped Qcow2Result; flags/queue entries restored on error exits; rollback and zero-write fallback on failing requests; state after retries not decided', 'C17'),
+ 'C10': ('guarded reachability (read-only test / dirty-token gates as path facts over the async call graph), dominance and provenance rules',
+         'every primary modifying effect lies behind a read-only test or a dirty-token test on every path from every public method; backing devices forced read-only; only reads on the backing receiver; COW structural conditions; byte-level merge not decided', 'C10'),
  'C13': ('dominance of validation checks over every suspension point + flow-aware data-dependence slices (taint of raw arguments into overflow-checked arithmetic)',
          'validation checks exist, reject without suspending and dominate every await; no overflow-checked arithmetic on raw arguments before a check on them; beyond-the-end credit only for backing devices; arithmetic results not decided', 'C13'),
  'C18': ('flag-protocol typestate over the async call graph + loop/phase dominance rule',
